@@ -10,7 +10,8 @@ MODULE = 'KdVerif.Props.C02'
 NAMESPACE = 'KdVerif.C02'
 TRUSTED = ['construct 2.10 primitives re-implemented in Model/Construct.lean from construct/core.py (GreedyRange, Const, '
            'Padding, FixedSized+CString, Array, FormatField) and io.BytesIO in Model/Reader.lean; tied by the sections '
-           'v2, v2-malformed, v2-seq, v2-kevents (events, tables and outcome kind must agree; the read counters are compared in C06)',
+           'v2, v2-malformed, v2-seq, v2-seq-failed, v2-kevents (events, tables and outcome kind must agree; the read counters are compared in C06); '
+           'histories on one PyKdebugParser and dumps longer than the reader\'s blocks are judged on the code alone (v2-seq-api, v2-seq-traces, v2-blocks)',
            'file grammar Spec/ContainerV2.encodeV2 (diffed byte for byte against the harness encoder, section encv2)',
            'from_kd_buf as proved in C01 (decode_eq_spec / decode_rejects_other_lengths)']
 ASSUMPTIONS = ['bytes objects hold values 0..255 (IsBytes)',
@@ -655,7 +656,9 @@ LEVEL_TEXT = ('Lean theorems over the reader/construct model of parse_v2 for ALL
               'records, no container exception), e2e_threadmap_of_encoded (thread map half without the K1 hypothesis), '
               'e2e_lines_of_encoded (lines of the file\'s bytes = line builder over traces of thread map + decoded records, '
               'only the trace layer\'s exception); the model is tied to the code by differential runs on generated '
-              'files, malformed files, parse sequences and the public kevents() entry point, including read counters.')
+              'files, malformed files, parse sequences (incl. histories in which earlier parses ended in an exception) and the public kevents() '
+              'entry point; code-only oracles over histories on one PyKdebugParser and over dumps longer than every block size the reader '
+              'requests (read-size probing, tools/kdv/readprobe.py).')
 LEVEL_NOTE = ('Partial: v2_events_partial carries the hypothesis "no records, or first record byte != 0" — without it the real '
               'code loses or misaligns records (known finding K1, reproduced on model and code every run). Trusted: Lean kernel, '
               'Model/Construct + Model/Reader as models of construct/BytesIO (diffed, not verified), Spec.encodeV2 as the meaning '
